@@ -100,6 +100,7 @@ Print Assumptions C14_sweep_complete.
 
 (* non-vacuity: a mutually recursive table resolves (a -> b.x -> a.y stops at the guard) *)
 Example C14_nonvacuous :
-  let cfg := mkMConfig [104;116;109;108]%N [([97]%N, [98;46;120]%N); ([98]%N, [97;46;121]%N)] [] WNone None None false None [] false false in
+  let cfg := mkMConfig [104;116;109;108]%N [([97]%N, [98;46;120]%N); ([98]%N, [97;46;121]%N)] [] WNone None None false None [] false false
+                       false [] [] None in
   exists t, markup_parse cfg [97]%N = Ok t /\ length t = 1.
 Proof. eexists. split; [vm_compute; reflexivity|reflexivity]. Qed.
